@@ -2,6 +2,7 @@ package main
 
 import (
 	"fmt"
+	"go/constant"
 	"go/token"
 	"go/types"
 	"sort"
@@ -441,6 +442,9 @@ func assignStr(a map[string]bool) string {
 	return strings.Join(ks, ", ")
 }
 
+// tableCtx gives the evaluator access to the constant tables of the program under analysis (set by Load).
+var tableCtx *Ctx
+
 // predicateTable evaluates a boolean function of a descriptor for every value of the given integer keys: vals maps a key
 // ("T", "V.T") to the value it has; the result is the common value of all return paths (triU when they disagree or depend
 // on something else).
@@ -448,6 +452,23 @@ func predicateValue(fn *ssa.Function, vals map[string]int64) tri {
 	bs := &boolSim{maxPath: 4096, atom: func(key string) tri {
 		i := strings.Index(key, "==")
 		if i < 0 {
+			// a constant boolean table of the module indexed by a known key: table[T]
+			if lb := strings.Index(key, "["); lb > 0 && strings.HasSuffix(key, "]") && tableCtx != nil {
+				if iv, ok := vals[key[lb+1:len(key)-1]]; ok {
+					for _, pkg := range []string{fnPkgPath(fn), pkgDefs, pkgReflect} {
+						if tab, _, ok := tableCtx.tableOf(pkg, key[:lb]); ok {
+							cv, present := tab[iv]
+							if !present {
+								return triF
+							}
+							if cv.Kind() == constant.Bool {
+								return triOf(constant.BoolVal(cv))
+							}
+							return triU
+						}
+					}
+				}
+			}
 			return triU
 		}
 		v, ok := vals[key[:i]]
